@@ -295,7 +295,7 @@ fn mips_case(seed: u64, idx: u64) -> Enc {
                         if e.0 == c { if zero_div { e.1 = 0 } else if e.1 == 0 { e.1 = 1 } }
                     }
                 }
-                if zero_div { tags.push("kf:mips-div-by-zero-il-error".into()); }
+                if zero_div { tags.push("div:zero-divisor".into()); }
             }
             samples = s;
             text = format!("{} r{}, r{}", name, b, c);
@@ -634,7 +634,7 @@ fn ppc_case(seed: u64, idx: u64) -> PEnc {
                 if low { x.ctr |= 1 + (x.seed & 2); } else { x.ctr &= !3; }
             } else if low { x.lr |= 1 + (x.seed & 2); } else { x.lr &= !3; }
         }
-        if low { tags.push("kf:ppc-indirect-branch-target-low-bits".into()); }
+        if low { tags.push("target:low-bits".into()); }
     }
     PEnc { form: name.to_string(), word, addr, samples, tags, text }
 }
